@@ -6,7 +6,9 @@ package main
 
 import (
 	"bufio"
+	"context"
 	"encoding/base64"
+	"encoding/json"
 	"errors"
 	"fmt"
 	"io"
@@ -16,6 +18,7 @@ import (
 	"sort"
 	"strconv"
 	"strings"
+	"sync"
 
 	"rivaas.dev/middleware/basicauth"
 	"rivaas.dev/middleware/bodylimit"
@@ -36,6 +39,7 @@ type caseT struct {
 	Body *bodyCase   `json:",omitempty"`
 	Auth *authCase   `json:",omitempty"`
 	Cors *corsCase   `json:",omitempty"`
+	Seq  *corsSeq    `json:",omitempty"`
 	Meth *methodCase `json:",omitempty"`
 	Sl   *slashCase  `json:",omitempty"`
 }
@@ -533,7 +537,7 @@ func (c *authCase) emit(id string, st *hx.Stats) string {
 		l.Tok("P")
 	} else {
 		l.Bool(ran).Nat(rec.Code)
-		optStr(l, rec.Header().Values("WWW-Authenticate"))
+		optStr(l, sent(rec).Values("WWW-Authenticate"))
 		l.Str(seenUser)
 	}
 	if st != nil {
@@ -636,11 +640,15 @@ func strs(l []B) []string {
 	return out
 }
 
-func (c *corsCase) emit(id string, st *hx.Stats) string {
-	l := hx.NewLine(id).Tok("C").Nat(len(c.Opts))
-	var opts []cors.Option
-	cred, all := false, false
-	for _, o := range c.Opts {
+// sent returns the headers of the response as it was sent (the snapshot net/http takes at WriteHeader),
+// not the recorder's live map: a header set after the status line never reaches a client.
+func sent(rec *httptest.ResponseRecorder) http.Header { return rec.Result().Header }
+
+// build renders the configuration tokens and the cors options; fn is the origin function used
+// whenever the case configures one.
+func (c *corsCase) build(id string, opts0 []corsOpt, fn func(string) bool) (l *hx.Line, opts []cors.Option, cred, all bool) {
+	l = hx.NewLine(id).Tok("C").Nat(len(opts0))
+	for _, o := range opts0 {
 		l.Tok(o.K)
 		switch o.K {
 		case "O":
@@ -670,12 +678,38 @@ func (c *corsCase) emit(id string, st *hx.Stats) string {
 		case "F":
 			l.Bool(o.B)
 			if o.B {
-				opts = append(opts, cors.WithAllowOriginFunc(originFn))
+				opts = append(opts, cors.WithAllowOriginFunc(fn))
 			} else {
 				opts = append(opts, cors.WithAllowOriginFunc(nil))
 			}
 		}
 	}
+	return l, opts, cred, all
+}
+
+func corsRouter(opts []cors.Option, ran *bool) *router.Router {
+	r := router.MustNew()
+	r.Use(cors.New(opts...))
+	h := func(ctx *router.Context) { *ran = true }
+	r.GET("/c", h)
+	r.POST("/c", h)
+	r.OPTIONS("/c", h)
+	return r
+}
+
+var corsHeaders = []string{"Access-Control-Allow-Origin", "Access-Control-Allow-Credentials", "Access-Control-Expose-Headers",
+	"Access-Control-Allow-Methods", "Access-Control-Allow-Headers", "Access-Control-Max-Age"}
+
+func corsObs(l *hx.Line, ran bool, rec *httptest.ResponseRecorder) {
+	l.Bool(ran).Nat(rec.Code)
+	h := sent(rec)
+	for _, name := range corsHeaders {
+		optStr(l, h.Values(name))
+	}
+}
+
+func (c *corsCase) emit(id string, st *hx.Stats) string {
+	l, opts, cred, all := c.build(id, c.Opts, originFn)
 	origin := ""
 	if c.Origin != nil {
 		origin = string(*c.Origin)
@@ -686,12 +720,7 @@ func (c *corsCase) emit(id string, st *hx.Stats) string {
 	var ran bool
 	rec := httptest.NewRecorder()
 	panicked := guard(func() {
-		r := router.MustNew()
-		r.Use(cors.New(opts...))
-		h := func(ctx *router.Context) { ran = true }
-		r.GET("/c", h)
-		r.POST("/c", h)
-		r.OPTIONS("/c", h)
+		r := corsRouter(opts, &ran)
 		req := httptest.NewRequest(c.Method, "/c", nil)
 		if c.Origin != nil {
 			req.Header["Origin"] = []string{origin}
@@ -702,11 +731,7 @@ func (c *corsCase) emit(id string, st *hx.Stats) string {
 	if panicked {
 		l.Tok("P")
 	} else {
-		l.Bool(ran).Nat(rec.Code)
-		for _, h := range []string{"Access-Control-Allow-Origin", "Access-Control-Allow-Credentials", "Access-Control-Expose-Headers",
-			"Access-Control-Allow-Methods", "Access-Control-Allow-Headers", "Access-Control-Max-Age"} {
-			optStr(l, rec.Header().Values(h))
-		}
+		corsObs(l, ran, rec)
 	}
 	if st != nil {
 		st.Case(in[len(id):], origin != "https://app.example.com" || (cred && all))
@@ -719,13 +744,184 @@ func (c *corsCase) emit(id string, st *hx.Stats) string {
 		if c.Method == http.MethodOptions {
 			st.Count("C.preflight")
 		}
-		if len(rec.Header().Values("Access-Control-Allow-Origin")) > 0 {
+		if len(sent(rec).Values("Access-Control-Allow-Origin")) > 0 {
 			st.Count("C.acao_emitted")
 		} else {
 			st.Count("C.acao_absent")
 		}
 	}
 	return l.String() + hx.Comment(caseT{Kind: "C", Cors: c})
+}
+
+// ---- sequences of requests on ONE middleware instance (kind Q in the comment; every request of the
+// sequence is judged as an ordinary C case line: the middleware is specified to be stateless)
+
+type seqReq struct {
+	Origin B
+	Method string
+	// Fault injected into the user's origin function at its next call for this origin:
+	// "block": the call blocks until the following request of the sequence has been answered
+	//          (two overlapping requests); "panic": the call panics once (recovered by the harness,
+	//          as a recovery middleware would; that request yields no case line)
+	Fault string `json:",omitempty"`
+}
+
+type corsSeq struct {
+	Opts []corsOpt
+	Reqs []seqReq
+}
+
+func (q *corsSeq) emit(id string, st *hx.Stats) string {
+	var (
+		mu      sync.Mutex
+		armed   = map[string]string{}
+		entered chan struct{}
+		release chan struct{}
+	)
+	policy := func(o string) bool {
+		mu.Lock()
+		f := armed[o]
+		delete(armed, o)
+		en, re := entered, release
+		mu.Unlock()
+		switch f {
+		case "block":
+			close(en)
+			<-re
+		case "panic":
+			panic("origin lookup failed")
+		}
+		return originFn(o)
+	}
+	cc := &corsCase{}
+	_, opts, _, _ := cc.build(id, q.Opts, policy)
+	r := router.MustNew()
+	r.Use(cors.New(opts...))
+	type ranKey struct{}
+	h := func(ctx *router.Context) {
+		if p, ok := ctx.Request.Context().Value(ranKey{}).(*bool); ok {
+			*p = true
+		}
+	}
+	r.GET("/c", h)
+	r.POST("/c", h)
+	r.OPTIONS("/c", h)
+
+	type resT struct {
+		ran      bool
+		rec      *httptest.ResponseRecorder
+		panicked bool
+	}
+	res := make([]*resT, len(q.Reqs))
+	serve := func(i int) {
+		rq := q.Reqs[i]
+		out := &resT{rec: httptest.NewRecorder()}
+		res[i] = out
+		out.panicked = guard(func() {
+			req := httptest.NewRequest(rq.Method, "/c", nil)
+			req.Header["Origin"] = []string{string(rq.Origin)}
+			req = req.WithContext(context.WithValue(req.Context(), ranKey{}, &out.ran))
+			r.ServeHTTP(out.rec, req)
+		})
+	}
+	overlapped := false
+	for i := 0; i < len(q.Reqs); i++ {
+		rq := q.Reqs[i]
+		switch rq.Fault {
+		case "block":
+			mu.Lock()
+			armed[string(rq.Origin)] = "block"
+			entered, release = make(chan struct{}), make(chan struct{})
+			en, re := entered, release
+			mu.Unlock()
+			done := make(chan struct{})
+			go func(i int) { defer close(done); serve(i) }(i)
+			select {
+			case <-en: // request i is inside the origin function
+				if i+1 < len(q.Reqs) {
+					i++
+					serve(i)
+					overlapped = true
+				}
+				close(re)
+				<-done
+			case <-done: // the configuration never asked the origin function
+				mu.Lock()
+				delete(armed, string(rq.Origin))
+				mu.Unlock()
+			}
+		case "panic":
+			mu.Lock()
+			armed[string(rq.Origin)] = "panic"
+			mu.Unlock()
+			serve(i)
+			mu.Lock()
+			delete(armed, string(rq.Origin))
+			mu.Unlock()
+		default:
+			serve(i)
+		}
+	}
+	var lines []string
+	for i, rq := range q.Reqs {
+		out := res[i]
+		if out == nil || (out.panicked && rq.Fault == "panic") {
+			continue // the injected fault itself is not a case
+		}
+		l, _, _, _ := cc.build(fmt.Sprintf("%s.q%d", id, i), q.Opts, originFn)
+		origin := string(rq.Origin)
+		l.Str(origin).Bool(originFn(origin)).Bool(rq.Method == http.MethodOptions)
+		l.Sep()
+		if out.panicked {
+			l.Tok("P")
+		} else {
+			corsObs(l, out.ran, out.rec)
+		}
+		lines = append(lines, l.String()+hx.Comment(caseT{Kind: "Q", Seq: q}))
+	}
+	if st != nil {
+		b, _ := json.Marshal(q)
+		st.Case(string(b), true)
+		st.Count("C.sequence_on_one_instance")
+		if overlapped {
+			st.Count("C.request_served_while_another_is_inside_the_origin_function")
+		}
+	}
+	return strings.Join(lines, "\n")
+}
+
+func genCorsSeq(r *hx.Rand) *corsSeq {
+	q := &corsSeq{}
+	if r.Chance(3, 4) {
+		q.Opts = append(q.Opts, corsOpt{K: "F", B: true})
+	}
+	base := genCors(r)
+	for _, o := range base.Opts {
+		if o.K == "A" && o.B && r.Chance(3, 4) {
+			continue // allow-all hides the origin decision
+		}
+		q.Opts = append(q.Opts, o)
+	}
+	if r.Chance(2, 3) {
+		q.Opts = append(q.Opts, corsOpt{K: "K", B: true})
+	}
+	if r.Chance(1, 2) {
+		q.Opts = append(q.Opts, corsOpt{K: "F", B: true})
+	}
+	good := []string{"https://app.example.com", "https://sub.app.example.com", "null"}
+	evil := []string{"https://evil.example.org", "https://app.example.com.evil.org", "http://b.test", "https://app.example.com:8443"}
+	meth := func() string { return hx.Pick(r, []string{"GET", "GET", "POST", "OPTIONS"}) }
+	for i, n := 0, r.Range(0, 2); i < n; i++ {
+		q.Reqs = append(q.Reqs, seqReq{Origin: B(hx.Pick(r, append(good, evil...))), Method: meth()})
+	}
+	q.Reqs = append(q.Reqs, seqReq{Origin: B(hx.Pick(r, good)), Method: meth()})
+	e := hx.Pick(r, evil)
+	q.Reqs = append(q.Reqs, seqReq{Origin: B(e), Method: meth(), Fault: hx.Pick(r, []string{"block", "panic", "block", ""})})
+	q.Reqs = append(q.Reqs, seqReq{Origin: B(e), Method: meth()})
+	for i, n := 0, r.Range(0, 2); i < n; i++ {
+		q.Reqs = append(q.Reqs, seqReq{Origin: B(hx.Pick(r, append(good, evil...))), Method: meth(), Fault: hx.Pick(r, []string{"", "", "block", "panic"})})
+	}
+	return q
 }
 
 // ---------------------------------------------------------------------------------------------
@@ -1063,7 +1259,7 @@ func (c *slashCase) emit(id string, st *hx.Stats) string {
 		l.Tok("P")
 	} else {
 		l.Bool(ran).Nat(rec.Code)
-		optStr(l, rec.Header().Values("Location"))
+		optStr(l, sent(rec).Values("Location"))
 	}
 	if st != nil {
 		plain := true
@@ -1104,6 +1300,11 @@ func emitCase(id string, k caseT, st *hx.Stats) string {
 		return k.Auth.emit(id, st)
 	case "C":
 		return k.Cors.emit(id, st)
+	case "Q":
+		if i := strings.LastIndex(id, ".q"); i > 0 {
+			id = id[:i]
+		}
+		return k.Seq.emit(id, st)
 	case "M":
 		return k.Meth.emit(id, st)
 	case "T":
@@ -1133,6 +1334,14 @@ func fixedCases() []caseT {
 		{Kind: "C", Cors: &corsCase{Opts: []corsOpt{{K: "F", B: true}, {K: "K", B: true}}, Origin: bp("*"), Method: "OPTIONS"}},
 		{Kind: "C", Cors: &corsCase{Opts: []corsOpt{{K: "A", B: true}, {K: "K", B: true}}, Origin: bp("https://app.example.com"), Method: "GET"}},
 		{Kind: "C", Cors: &corsCase{Opts: []corsOpt{{K: "A", B: true}}, Origin: bp("https://app.example.com"), Method: "GET"}},
+		// cors on one instance with an origin function: an allowed origin, then a disallowed one whose lookup
+		// blocks while a second request from it is served / whose lookup fails once
+		{Kind: "Q", Seq: &corsSeq{Opts: []corsOpt{{K: "F", B: true}, {K: "K", B: true}}, Reqs: []seqReq{
+			{Origin: B("https://app.example.com"), Method: "GET"}, {Origin: B("https://evil.example.org"), Method: "GET", Fault: "block"},
+			{Origin: B("https://evil.example.org"), Method: "GET"}}}},
+		{Kind: "Q", Seq: &corsSeq{Opts: []corsOpt{{K: "F", B: true}, {K: "K", B: true}}, Reqs: []seqReq{
+			{Origin: B("https://app.example.com"), Method: "GET"}, {Origin: B("https://evil.example.org"), Method: "GET", Fault: "panic"},
+			{Origin: B("https://evil.example.org"), Method: "GET"}, {Origin: B("https://evil.example.org"), Method: "OPTIONS"}}}},
 		// bodylimit boundaries: exactly at the limit, one over, look-ahead byte in its own chunk, lying Content-Length
 		{Kind: "B", Body: &bodyCase{Limit: 5, Body: B("12345"), Script: []stepT{d(2), d(1), d(4)}, Dflt: 3}},
 		{Kind: "B", Body: &bodyCase{Limit: 5, Body: B("123456"), Script: []stepT{d(5), d(1)}, EofWithLast: true, Dflt: 8}},
@@ -1172,7 +1381,11 @@ func main() {
 			case 1:
 				k = caseT{Kind: "A", Auth: genAuth(r)}
 			case 2:
-				k = caseT{Kind: "C", Cors: genCors(r)}
+				if r.Chance(1, 12) {
+					k = caseT{Kind: "Q", Seq: genCorsSeq(r)}
+				} else {
+					k = caseT{Kind: "C", Cors: genCors(r)}
+				}
 			case 3:
 				k = caseT{Kind: "M", Meth: genMethod(r)}
 			default:
